@@ -33,6 +33,37 @@ STATE = {"active_index_set", "old_index_set", "lmin", "lmax_adaptive", "initiali
 INITIALISERS = {"__init__", "init_adaptive_combi_scheme", "init_full_grid"}
 
 
+# the methods that change the scheme on the tree the rules were written against (read one by one): the two initialisers, the
+# refinement step and its private helper.  Every other method is an observer: reading the scheme must not change it.
+WRITERS = {"__init__", "init_adaptive_combi_scheme", "init_full_grid", "update_adaptive_combi", "__refine_scheme", "_CombiScheme__refine_scheme"}
+SETS = {"active_index_set", "old_index_set"}
+
+
+def check_observers_do_not_modify(prog, ctx, cs, related):
+    """C01.D8: only the initialisers and the refinement step change the index sets; every other method of CombiScheme (getCombiScheme,
+    the coefficient computation, the predicates and getters) leaves them as they are -- no store, no in-place update (`|=`, `.add`,
+    `.update`, ...), neither on `self.<set>` nor through a local bound to it.  Otherwise *observing* the scheme between two refinement
+    steps changes what the next step sees (old and active set overlap, active indices with forward neighbours)."""
+    n = 0
+    for c in prog.classes.values():
+        if c.qual not in related:
+            continue
+        for name, fi in sorted(c.methods.items()):
+            if name in WRITERS:
+                continue
+            n += 1
+            ctx.touch(fi)
+            direct = [s for s in R.self_stores(fi) if s.attr in STATE]
+            alias = R.attribute_alias_mutations(fi, SETS)
+            ok = not direct and not alias
+            where = fi.loc(direct[0].stmt) if direct else (fi.loc(alias[0][1]) if alias else fi.loc())
+            why = ("`%s` writes self.%s" % (src(direct[0].stmt)[:80], direct[0].attr)) if direct else (alias[0][2] if alias else "")
+            ctx.check(ok, "C01.D8", R.key_of(fi, "observer-does-not-modify"), where,
+                      "%s does not change the index sets / lmin" % name,
+                      "%s is an observer of the scheme but %s: reading the scheme changes the state the next refinement step starts from" % (name, why))
+    ctx.floor("C01.D8", n, 8, "observer methods of CombiScheme")
+
+
 def run(prog, ctx):
     cs = prog.cls(CS)
     related = {c.qual for c in prog.all_subclasses(cs)}
@@ -66,6 +97,7 @@ def run(prog, ctx):
     if not bad:
         ctx.ok("C01.D1", "package::no-outside-writer", "sparseSpACE/*", "index sets, lmin, lmax_adaptive, initialized_adaptive are written only by CombiScheme methods")
     check_initialisation(prog, ctx, cs, "C01.D1")
+    check_observers_do_not_modify(prog, ctx, cs, related)
     # getter escape: get_active_indices returns the internal set
     getter_users = 0
     for fi in prog.functions.values():
